@@ -376,37 +376,92 @@ def fn_breakdown(res):
     return out
 
 
-def probe_variant(ur):
-    """every extracted body and loop body gets `assert(false);` at its start: each of them must FAIL"""
-    text = ur.text
-    n = text.count('/*@probe*/')
-    vt = text.replace('/*@probe*/', 'assert(false);/*@probe*/')
-    path = os.path.join(ur.scratch, ur.unit + '_probe.rs')
-    open(path, 'w').write(vt)
-    return path, n
+def probe_variant(ur, only=None, tag=''):
+    """every extracted body and loop body gets `assert(false);` at its start: each of them must FAIL.
+    `only`: ordinals of the probes to enable (None = all)"""
+    parts = ur.text.split('/*@probe*/')
+    out = []
+    for k, part in enumerate(parts[:-1]):
+        out.append(part)
+        out.append('assert(false);/*@probe*/' if (only is None or k in only) else '/*@probe-off*/')
+    out.append(parts[-1])
+    path = os.path.join(ur.scratch, ur.unit + '_probe%s.rs' % tag)
+    open(path, 'w').write(''.join(out))
+    return path, len(parts) - 1
+
+
+def probe_depths(text):
+    """nesting depth of every probe (0 = function body, 1 = loop in a function body, 2 = loop in a loop ...), by brace matching"""
+    depths = []
+    stack = []
+    i, n = 0, len(text)
+    while i < n:
+        c = text[i]
+        if c == '/' and text.startswith('/*@probe*/', i):
+            # the probe belongs to the innermost open block: mark it
+            if stack and not stack[-1]:
+                stack[-1] = True
+            depths.append(max(0, sum(1 for x in stack if x) - 1))
+            i += len('/*@probe*/')
+            continue
+        if c == '/' and text.startswith('/*', i):
+            k = text.find('*/', i + 2)
+            i = n if k < 0 else k + 2
+            continue
+        if c == '/' and text.startswith('//', i):
+            k = text.find('\n', i)
+            i = n if k < 0 else k
+            continue
+        if c == '{':
+            stack.append(False)
+        elif c == '}':
+            if stack:
+                stack.pop()
+        i += 1
+    return depths
 
 
 def check_probes(ur):
-    path, n = probe_variant(ur)
+    """a probe that follows another failing probe in the same verification query (a loop body inside a function body: loops are
+    not isolated) is trivially true once the first one has been reported; so the probes are checked per nesting depth, one
+    Verus run per depth, in parallel"""
+    depths = probe_depths(ur.text)
+    n = len(depths)
     if n == 0:
         raise Undecided('vacuity guard: no probes generated for unit ' + ur.unit)
-    rc, res, diags, err, wall, cmd = verus(path, ur.scratch)
-    lines = open(path).read().splitlines()
-    probe_lines = set(i + 1 for i, l in enumerate(lines) if 'assert(false);/*@probe*/' in l)
-    failed = set()
-    for d in diags:
-        if d.get('level') == 'error' and 'assertion failed' in d.get('message', ''):
-            for s in d.get('spans', []):
-                if s['line_start'] in probe_lines and s.get('is_primary'):
-                    failed.add(s['line_start'])
-    missing = sorted(probe_lines - failed)
+    levels = sorted(set(depths))
+
+    def one(level):
+        only = set(k for k, d in enumerate(depths) if d == level)
+        path, _ = probe_variant(ur, only, '_%d' % level)
+        rc, res, diags, err, wall, cmd = verus(path, ur.scratch)
+        lines = open(path).read().splitlines()
+        ordinals = {}
+        k = 0
+        for i, l in enumerate(lines):
+            for m in re.finditer(r'assert\(false\);/\*@probe\*/|/\*@probe-off\*/', l):
+                if m.group(0).startswith('assert'):
+                    ordinals[i + 1] = k
+                k += 1
+        failed = set()
+        for d in diags:
+            if d.get('level') == 'error' and 'assertion failed' in d.get('message', ''):
+                for sp in d.get('spans', []):
+                    if sp['line_start'] in ordinals and sp.get('is_primary'):
+                        failed.add(ordinals[sp['line_start']])
+        missing = [(ln, o) for ln, o in ordinals.items() if o not in failed]
+        return missing, wall
+
+    with ThreadPoolExecutor(max_workers=len(levels)) as ex:
+        outs = list(ex.map(one, levels))
+    missing = [m for ms, _ in outs for m in ms]
     if missing:
         where = []
-        for l in missing[:5]:
+        for l, _o in sorted(missing)[:5]:
             f = ur.fn_at(l)
             where.append((f['id'] if f else '?') + '@gen:%d' % l)
-        raise Undecided('vacuity guard: %d of %d reachability probes did not fail (contradictory precondition/invariant/axioms?): %s' % (len(missing), len(probe_lines), ', '.join(where)))
-    return len(probe_lines), wall
+        raise Undecided('vacuity guard: %d of %d reachability probes did not fail (contradictory precondition/invariant/axioms?): %s' % (len(missing), n, ', '.join(where)))
+    return n, max(w for _, w in outs)
 
 
 def check_la(scratch):
